@@ -29,14 +29,26 @@ From TR Require Import Lib.Base.
 
 (* ------------------------------------------------------------------------- *)
 (* (A) readiness protocol *)
-Inductive disc := Swap | Direct | Retry (k : nat) | Hedge (k : nat) | Reconnect (k : nat).
+(* [dflt] = the retrying layer is configured with the crate's DEFAULT predicate (retry / reconnect on
+   every error) instead of one that only accepts the wrapped service's transient errors (the driver's
+   retry_on(kind == TRANSIENT), reconnect_predicate("E kind=1 ...")) *)
+Inductive disc :=
+| Swap | Direct
+| Retry (k : nat) (dflt : bool)       (* max_attempts = k + 1 *)
+| Hedge (k : nat)                     (* every hedge is started whatever the earlier attempts answer
+                                         (parallel mode; latency mode with a delay shorter than a call) *)
+| HedgeSeq (k : nat)                  (* latency mode with a delay longer than a call: the next hedge is
+                                         started only after all earlier attempts have failed *)
+| Reconnect (k : nat) (dflt : bool).  (* max_attempts = k + 1 reconnections *)
 
 Inductive rres := RReady | RPending | RErr.
 
-(* how a call ended as far as readiness is concerned: normally (whatever the wrapped
-   service's own outcome), with a readiness error raised inside the layer (or further down),
-   or never (the layer polls an instance that stays Pending for ever) *)
-Inductive cres := COk | CRdy | CHang.
+(* how a call ended: with the wrapped service's Ok answer; with an error -- the wrapped service's own
+   transient or application error, a readiness error raised inside a layer (or further down), an
+   error made up by a layer (retries exhausted: reconnect's MaxAttemptsExceeded, hedge's
+   AllAttemptsFailed) --; or never (a layer polls an instance that stays Pending for ever) *)
+Inductive ekind := KTransient | KApp | KReady | KLayer.
+Inductive cres := COk | CErr (e : ekind) | CHang.
 
 Inductive op :=
 | OClone (x : nat)            (* clone instance x; the answer carries the new instance *)
@@ -46,7 +58,7 @@ Inductive op :=
 Inductive ans := AId (x : nat) | ARes (r : rres) | ADone (c : cres).
 
 (* what the wrapped service sees *)
-Inductive lev := LPoll (x : nat) (r : rres) | LCall (x : nat) (req : Z) (ok : bool) | LClone (x y : nat).
+Inductive lev := LPoll (x : nat) (r : rres) | LCall (x : nat) (req : Z) (ok : bool) (res : cres) | LClone (x y : nat).
 
 Record base := mkBase {
   ready : nat -> bool;
@@ -57,7 +69,10 @@ Record base := mkBase {
                                  the polls of the instance that was the c-th to be used (poll or call) *)
   seen : list nat;            (* instances in order of first use *)
   blog : list lev;            (* newest first *)
-  violations : nat
+  violations : nat;
+  kfail : nat;                (* the first kfail calls made for a request fail with a transient error *)
+  appm : Z;                   (* bit j-1 set: every call for request j fails with an application error *)
+  acnt : Z -> nat             (* calls made so far for each request *)
 }.
 
 Definition updb (f : nat -> bool) (i : nat) (v : bool) : nat -> bool :=
@@ -88,22 +103,32 @@ Definition answer (b : base) (x : nat) : rres :=
   if pmode b then head_or_ready (nth (pos_of x (seen b)) (porc b) [])
   else head_or_ready (oracle b).
 
+Definition updz (f : Z -> nat) (q : Z) (v : nat) : Z -> nat :=
+  fun p => if Z.eqb p q then v else f p.
+
+(* the wrapped service's answer to a call for request req *)
+Definition call_result (b : base) (req : Z) : cres :=
+  if Z.testbit (appm b) (req - 1) then CErr KApp
+  else if Nat.ltb (acnt b req) (kfail b) then CErr KTransient else COk.
+
 Definition base_exec (b : base) (o : op) : base * ans :=
   match o with
   | OClone x =>
     let y := fresh b in
     (mkBase (updb (ready b) y false) (S y) (oracle b) (pmode b) (porc b) (seen b)
-            (LClone x y :: blog b) (violations b), AId y)
+            (LClone x y :: blog b) (violations b) (kfail b) (appm b) (acnt b), AId y)
   | OPoll x =>
     let r := answer b x in
     (mkBase (match r with RReady => updb (ready b) x true | _ => ready b end) (fresh b)
             (tl (oracle b)) (pmode b) (drop_at (pos_of x (seen b)) (porc b)) (note x (seen b))
-            (LPoll x r :: blog b) (violations b), ARes r)
+            (LPoll x r :: blog b) (violations b) (kfail b) (appm b) (acnt b), ARes r)
   | OCall x req =>
     let ok := ready b x in
+    let res := call_result b req in
     (mkBase (updb (ready b) x false) (fresh b) (oracle b) (pmode b) (porc b) (note x (seen b))
-            (LCall x req ok :: blog b)
-            (if ok then violations b else S (violations b)), ADone COk)
+            (LCall x req ok res :: blog b)
+            (if ok then violations b else S (violations b)) (kfail b) (appm b)
+            (updz (acnt b) req (S (acnt b req))), ADone res)
   end.
 
 (* one layer's bookkeeping: which inner instance each of its instances wraps *)
@@ -126,43 +151,77 @@ Section Exec.
       end
     end.
 
-  (* k further attempts on instance y, each after readiness *)
-  Fixpoint attempts (fuel : nat) (k : nat) (t : T) (y : nat) (req : Z) : T * cres :=
-    match k with
-    | O => (t, COk)
-    | S k' =>
-      let '(t1, r) := poll_until fuel t y in
-      match r with
-      | RReady =>
-        let '(t2, a) := sub t1 (OCall y req) in
-        match a with
-        | ADone CRdy => (t2, CRdy)    (* a readiness error raised further down ends the request *)
-        | ADone CHang => (t2, CHang)
-        | _ => attempts fuel k' t2 y req
+  Definition cres_of (a : ans) : cres := match a with ADone c => c | _ => COk end.
+  Definition is_ok (c : cres) : bool := match c with COk => true | _ => false end.
+
+  Definition retryable (dflt : bool) (e : ekind) : bool :=
+    if dflt then true else match e with KTransient => true | _ => false end.
+
+  (* the retry loop of Retry / of ReconnectFuture after a call on instance y ended with c: while the
+     error is one the predicate accepts and attempts are left: [backoff,] poll_ready until Ready --
+     a readiness ERROR ends the request with that error, whatever the predicate --, call again.
+     [lay]: when the attempts are exhausted the layer gives up with an error of its own
+     (reconnect: MaxAttemptsExceeded) instead of returning the last error (retry) *)
+  Fixpoint rloop (fuel : nat) (dflt lay : bool) (rem : nat) (t : T) (y : nat) (req : Z) (c : cres)
+    : T * cres :=
+    match c with
+    | CErr e =>
+      if retryable dflt e then
+        match rem with
+        | O => (t, if lay then CErr KLayer else c)
+        | S rem' =>
+          let '(t1, r) := poll_until fuel t y in
+          match r with
+          | RReady =>
+            let '(t2, a) := sub t1 (OCall y req) in rloop fuel dflt lay rem' t2 y req (cres_of a)
+          | RErr => (t1, CErr KReady)    (* the layer's own failed readiness check ends the request *)
+          | RPending => (t1, CHang)      (* never ready (fuel exhausted): the request never completes *)
+          end
         end
-      | RErr => (t1, CRdy)           (* readiness error: the request ends with it *)
-      | RPending => (t1, CHang)      (* never ready (fuel exhausted): the request never completes *)
-      end
+      else (t, c)
+    | _ => (t, c)
     end.
 
-  (* k hedges, each on a fresh clone of y0 *)
-  Fixpoint hedges (fuel : nat) (k : nat) (t : T) (y0 : nat) (req : Z) : T :=
+  (* k hedges, each on a fresh clone of y0, all of them started; [anyok]: some attempt answered Ok *)
+  Fixpoint hedges (fuel : nat) (k : nat) (t : T) (y0 : nat) (req : Z) (anyok : bool) : T * bool :=
     match k with
-    | O => t
+    | O => (t, anyok)
     | S k' =>
       let '(t1, a) := sub t (OClone y0) in
       match a with
       | AId h =>
         let '(t2, r) := poll_until fuel t1 h in
         match r with
-        | RReady => let '(t3, _) := sub t2 (OCall h req) in hedges fuel k' t3 y0 req
-        | _ => hedges fuel k' t2 y0 req      (* that hedge fails with the readiness error *)
+        | RReady =>
+          let '(t3, a3) := sub t2 (OCall h req) in
+          hedges fuel k' t3 y0 req (anyok || is_ok (cres_of a3))
+        | _ => hedges fuel k' t2 y0 req anyok      (* that hedge fails with the readiness error *)
         end
-      | _ => t1
+      | _ => (t1, anyok)
       end
     end.
 
-  Definition cres_of (a : ans) : cres := match a with ADone c => c | _ => COk end.
+  (* k hedges one after the other, the next one only after the previous attempt has failed *)
+  Fixpoint hseq (fuel : nat) (k : nat) (t : T) (y0 : nat) (req : Z) : T * bool :=
+    match k with
+    | O => (t, false)
+    | S k' =>
+      let '(t1, a) := sub t (OClone y0) in
+      match a with
+      | AId h =>
+        let '(t2, r) := poll_until fuel t1 h in
+        match r with
+        | RReady =>
+          let '(t3, a3) := sub t2 (OCall h req) in
+          if is_ok (cres_of a3) then (t3, true) else hseq fuel k' t3 y0 req
+        | _ => hseq fuel k' t2 y0 req
+        end
+      | _ => (t1, false)
+      end
+    end.
+
+  (* hedge reports every failure of all its attempts as AllAttemptsFailed, an error of its own *)
+  Definition hedge_result (anyok : bool) : cres := if anyok then COk else CErr KLayer.
 
   Definition layer_exec (fuel : nat) (d : disc) (l : lstate) (t : T) (o : op) : lstate * T * ans :=
     match o with
@@ -178,34 +237,30 @@ Section Exec.
       let y := imap l x in
       match d with
       | Direct => let '(t1, a) := sub t (OCall y req) in (l, t1, ADone (cres_of a))
-      | Swap | Retry _ | Hedge _ =>
+      | Swap | Retry _ _ | Hedge _ | HedgeSeq _ =>
         let '(t1, a) := sub t (OClone y) in
         match a with
         | AId y' =>
           let '(t2, a0) := sub t1 (OCall y req) in
           let l' := mkL (updn (imap l) x y') (lfresh l) in
           match d with
-          | Retry k =>
-            (* a readiness error raised further down is not retried *)
-            match cres_of a0 with
-            | COk => let '(t3, e) := attempts fuel k t2 y req in (l', t3, ADone e)
-            | c => (l', t2, ADone c)
-            end
-          | Hedge k => (l', hedges fuel k t2 y' req, ADone COk)
+          | Retry k dflt =>
+            let '(t3, e) := rloop fuel dflt false k t2 y req (cres_of a0) in (l', t3, ADone e)
+          | Hedge k =>
+            let '(t3, ok) := hedges fuel k t2 y' req (is_ok (cres_of a0)) in (l', t3, ADone (hedge_result ok))
+          | HedgeSeq k =>
+            if is_ok (cres_of a0) then (l', t2, ADone COk)
+            else let '(t3, ok) := hseq fuel k t2 y' req in (l', t3, ADone (hedge_result ok))
           | _ => (l', t2, ADone (cres_of a0))
           end
         | _ => (l, t1, a)
         end
-      | Reconnect k =>
+      | Reconnect k dflt =>
         let '(t1, a0) := sub t (OCall y req) in
         let '(t2, a) := sub t1 (OClone y) in
         match a with
         | AId z =>
-          (* a readiness error raised further down is not a connection failure: no retry *)
-          match cres_of a0 with
-          | COk => let '(t3, e) := attempts fuel k t2 z req in (l, t3, ADone e)
-          | c => (l, t2, ADone c)
-          end
+          let '(t3, e) := rloop fuel dflt true (S k) t2 z req (cres_of a0) in (l, t3, ADone e)
         | _ => (l, t2, a)
         end
       end
@@ -230,15 +285,21 @@ Definition execp (fuel : nat) (ds : list disc) (t : list lstate * base) (o : op)
   let '(ls2, b2, a) := exec fuel ds (fst t) (snd t) o in ((ls2, b2), a).
 
 Definition init_l : lstate := mkL (fun _ => O) 1.   (* instance 0 wraps inner instance 0 *)
-Definition init_base (orc : list rres) : base :=
-  mkBase (fun _ => false) 1 orc false [] [] [] 0.
-Definition init_base_p (po : list (list rres)) : base :=
-  mkBase (fun _ => false) 1 [] true po [] [] 0.
+Definition init_base_f (orc : list rres) (kf : nat) (am : Z) : base :=
+  mkBase (fun _ => false) 1 orc false [] [] [] 0 kf am (fun _ => O).
+Definition init_base_pf (po : list (list rres)) (kf : nat) (am : Z) : base :=
+  mkBase (fun _ => false) 1 [] true po [] [] 0 kf am (fun _ => O).
+Definition init_base (orc : list rres) : base := init_base_f orc 0 0.
+Definition init_base_p (po : list (list rres)) : base := init_base_pf po 0 0.
 Definition init_stack (ds : list disc) (b : base) : list lstate * base :=
   (map (fun _ => init_l) ds, b).
 
 Definition code_of_rres (r : rres) : Z := match r with RReady => 0 | RErr => 1 | RPending => 3 end.
-Definition code_of_ans (a : ans) : Z := match a with ADone CRdy => 2 | ADone CHang => 9 | _ => 0 end.
+Definition code_of_ans (a : ans) : Z :=
+  match a with
+  | ADone (CErr KReady) => 2 | ADone (CErr KLayer) => 6 | ADone CHang => 9
+  | ADone (CErr KApp) => 10 | ADone (CErr KTransient) => 11 | _ => 0
+  end.
 
 (* a well-behaved client of the top layer: for each request, poll instance 0 until Ready
    (give up on a readiness error or after [cf] Pending answers), then call it *)
@@ -364,30 +425,39 @@ Arguments layer_sem : clear implicits.
 
 (* ------------------------------------------------------------------------- *)
 (* (C) listeners.
-   A listener reacts to an event by returning or by panicking. [notify] is ONE listener
-   invocation as the layers make it: through EventListeners::emit, i.e. under catch_unwind
-   ([guarded] = true), or bare ([guarded] = false: reconnect's on_state_change / on_reconnect
-   callbacks, compiled only with that crate's `tracing` feature). A panic that is not caught
-   unwinds through the rest of the emit loop and through the call. *)
-Inductive lresult := Returns | Panics | Skipped.
+   A listener reacts to an event by returning, by panicking with an ordinary payload, or by panicking
+   with a payload whose destructor panics in turn (std::panic::panic_any(Bomb)). A listener
+   invocation is made under one of three guards:
+     GCatchDrop  catch_unwind around the listener AND around the drop of the caught payload
+                 (EventListeners::emit since fix afefac0): nothing escapes;
+     GCatch      catch_unwind around the listener only, the payload is dropped outside it
+                 (emit before afefac0; reconnect's on_state_change / on_reconnect callback sites,
+                 `let _ = catch_unwind(..)`): a Bomb payload escapes;
+     GBare       no guard (reconnect's callback sites before fix 484f229): every panic escapes.
+   A panic that escapes unwinds through the rest of the emit loop and through the call. *)
+Inductive lresult := Returns | Panics | Bombs | Skipped.
   (* Skipped: the listener is not registered for this kind of event (reconnect has one callback per kind) *)
 Definition listener := Z -> lresult.       (* reaction to an event (kind) *)
+Inductive guard := GBare | GCatch | GCatchDrop.
+
+Definition contained (g : guard) (r : lresult) : bool :=
+  match r, g with
+  | Panics, GBare => false
+  | Bombs, GBare | Bombs, GCatch => false
+  | _, _ => true
+  end.
 
 (* run the listeners on one event: what each did, and whether a panic escaped *)
-Fixpoint emit_g (guarded : bool) (ls : list listener) (ev : Z) : list lresult * bool :=
+Fixpoint emit_g (g : guard) (ls : list listener) (ev : Z) : list lresult * bool :=
   match ls with
   | [] => ([], false)
   | l :: rest =>
-    match l ev with
-    | Panics =>
-      if guarded then let '(rs, esc) := emit_g guarded rest ev in (Panics :: rs, esc)
-      else ([Panics], true)
-    | r => let '(rs, esc) := emit_g guarded rest ev in (r :: rs, esc)
-    end
+    if contained g (l ev) then let '(rs, esc) := emit_g g rest ev in (l ev :: rs, esc)
+    else ([l ev], true)
   end.
 
 (* EventListeners::emit *)
-Definition emit (ls : list listener) (ev : Z) : list lresult := fst (emit_g true ls ev).
+Definition emit (ls : list listener) (ev : Z) : list lresult := fst (emit_g GCatchDrop ls ev).
 
 (* how a call ends *)
 Inductive final := FOut (kind payload : Z) | FPanic.
@@ -396,7 +466,7 @@ Inductive final := FOut (kind payload : Z) | FPanic.
    (the inner call returned); the run stops at the first escaped panic *)
 Inductive lstep := SEmit (ev : Z) | SOut (kind payload : Z).
 
-Fixpoint run_steps (guarded : bool) (ls : list listener) (steps : list lstep)
+Fixpoint run_steps (guarded : guard) (ls : list listener) (steps : list lstep)
          (cur : final) (acc : list (Z * list lresult)) : final * list (Z * list lresult) :=
   match steps with
   | [] => (cur, rev acc)
@@ -409,33 +479,43 @@ Fixpoint run_steps (guarded : bool) (ls : list listener) (steps : list lstep)
 
 (* how often listener i was invoked with an event of kind ev *)
 Definition invoked (r : option lresult) : bool :=
-  match r with Some Returns | Some Panics => true | _ => false end.
+  match r with Some Returns | Some Panics | Some Bombs => true | _ => false end.
 Definition count_kind (i : nat) (ev : Z) (deliveries : list (Z * list lresult)) : Z :=
   Z.of_nat (length (filter (fun d => andb (fst d =? ev) (invoked (nth_error (snd d) i))) deliveries)).
 
 (* ------------------------------------------------------------------------- *)
 (* script interface, protocol modes
-   mode 1: [1; n; disc codes (n entries, outermost first: 0 Swap 1 Direct 2 Retry 3 Hedge
-            4 Reconnect); k (extra attempts for every Retry/Hedge/Reconnect layer);
-            nreq; shared oracle entries (0 Ready 1 Pending 2 Err)...]
-       trace: per request a code (0 called, 1 readiness error at poll_ready, 2 readiness error
-              inside the call, 3 never ready, 9 never completed), then the wrapped service's log
-              with instances renamed by first use in a poll or call: [1; inst; r; 0] poll,
-              [2; inst; was-ready; request] call, then [violations].
-   mode 3: [3; n; disc codes; k; nops; (opcode; a; b) * nops; per-instance oracle: the entries of
+   mode 1: [1; n; disc codes (n entries, outermost first: 0 Swap 1 Direct 2 Retry 3 Hedge 4 Reconnect
+            (2, 4: predicates that accept transient errors only) 5 Retry, default predicate
+            6 Reconnect, default predicate 7 HedgeSeq); K; nreq; shared oracle entries (0 Ready
+            1 Pending 2 Err)...]
+            K = k + 16 * E + 2^20 * F: k (<= 6) extra attempts for every retrying / hedging layer;
+            E: bit j-1 set = every call for request j fails with an APPLICATION error; F = 0: the
+            first (k+1)^m - 1 calls of every request fail with a TRANSIENT error (m = number of
+            Retry / Reconnect layers; none when a hedge layer is present), F > 0: the first F - 1
+       trace: per request a code (0 answered Ok, 1 readiness error at poll_ready, 2 readiness error
+              inside the call, 3 never ready, 6 an error made up by a layer, 9 never completed, 10 the
+              wrapped service's application error, 11 its transient error), then the wrapped
+              service's log with instances renamed by first use in a poll or call: [1; inst; r; 0]
+              poll, [2; inst; was-ready + 2 * result (0 Ok 1 transient 2 application); request] call,
+              then [violations].
+   mode 3: [3; n; disc codes; K; nops; (opcode; a; b) * nops; per-instance oracle: the entries of
             instance 0, -1, the entries of instance 1, -1, ...]
             opcodes: 0 poll handle a / 1 call on handle a (b: harness-only hold flag) /
             2 clone handle a / 4 gate-closed poll of handle a / 5 call on handle a, future left
             un-polled (harness) / anything else: harness-only event
        trace: one code per operation (poll: 0 ready 1 readiness error 3 never ready; call, clone:
-              0 done; 8 refused; gate: 3; others 0), then one outcome code per issued request
-              (0 / 2 / 9), then the log and [violations] as in mode 1. *)
+              0 done; 8 refused; gate: 3; others 0), then one outcome code per issued request,
+              then the log and [violations] as in mode 1. *)
 Definition disc_of (code : Z) (k : nat) : disc :=
   if code =? 0 then Swap else if code =? 1 then Direct else
-  if code =? 2 then Retry k else if code =? 3 then Hedge k else Reconnect k.
+  if code =? 2 then Retry k false else if code =? 3 then Hedge k else
+  if code =? 4 then Reconnect k false else if code =? 5 then Retry k true else
+  if code =? 6 then Reconnect k true else if code =? 7 then HedgeSeq k else Swap.
 
 Definition rres_of (z : Z) : rres := if z =? 0 then RReady else if z =? 1 then RPending else RErr.
 Definition rres_code (r : rres) : Z := match r with RReady => 0 | RPending => 1 | RErr => 2 end.
+Definition res_code (c : cres) : Z := match c with CErr KTransient => 1 | CErr KApp => 2 | _ => 0 end.
 
 (* rename instances by first use *)
 Fixpoint index_of (x : nat) (l : list nat) (i : Z) : option Z :=
@@ -453,26 +533,38 @@ Fixpoint canon (log : list lev) (seen : list nat) : list Z :=
     | Some i => [1; i; rres_code r; 0] ++ canon rest seen
     | None => [1; Z.of_nat (length seen); rres_code r; 0] ++ canon rest (seen ++ [x])
     end
-  | LCall x q ok :: rest =>
+  | LCall x q ok res :: rest =>
     match index_of x seen 0 with
-    | Some i => [2; i; b2z ok; q] ++ canon rest seen
-    | None => [2; Z.of_nat (length seen); b2z ok; q] ++ canon rest (seen ++ [x])
+    | Some i => [2; i; b2z ok + 2 * res_code res; q] ++ canon rest seen
+    | None => [2; Z.of_nat (length seen); b2z ok + 2 * res_code res; q] ++ canon rest (seen ++ [x])
     end
   end.
 
 (* the client's patience: Pending answers it accepts at one poll_ready before giving up *)
 Definition CF : nat := 8.
 
+(* the K field *)
+Definition k_of (K : Z) : nat := Nat.min 6 (Z.to_nat (K mod 16)).
+Definition appm_of (K : Z) : Z := (K / 16) mod 65536.
+Definition is_retrying (d : disc) : bool := match d with Retry _ _ | Reconnect _ _ => true | _ => false end.
+Definition is_hedging (d : disc) : bool := match d with Hedge _ | HedgeSeq _ => true | _ => false end.
+Definition kfail_of (K : Z) (ds : list disc) : nat :=
+  let F := K / 1048576 in
+  if 0 <? F then Nat.min 4095 (Z.to_nat (F - 1))
+  else if existsb is_hedging ds then O
+  else Nat.min 4096 (Nat.pow (S (k_of K)) (length (filter is_retrying ds))) - 1.
+
 Definition run_protocol (sc : list Z) : list Z :=
   let n := Z.to_nat (zn sc 1) in
   let codes := firstn n (skipn 2 sc) in
-  let k := Z.to_nat (zn sc (2 + n)) in
+  let K := zn sc (2 + n) in
   let nreq := Z.to_nat (zn sc (3 + n)) in
   let orc := map rres_of (skipn (4 + n) sc) in
-  let ds := map (fun c => disc_of c k) codes in
+  let ds := map (fun c => disc_of c (k_of K)) codes in
   let reqs := map Z.of_nat (seq 1 nreq) in
   (* inside a call a layer polls for as long as it takes: more fuel than Pending answers *)
-  let '(t, out) := client CF (S (length orc)) ds (init_stack ds (init_base orc)) reqs in
+  let '(t, out) := client CF (S (length orc)) ds
+                     (init_stack ds (init_base_f orc (kfail_of K ds) (appm_of K))) reqs in
   out ++ canon (rev (blog (snd t))) [] ++ [Z.of_nat (violations (snd t))].
 
 Fixpoint split_segs (l : list Z) (cur : list Z) : list (list Z) :=
@@ -490,12 +582,13 @@ Definition cop_of (t : Z * Z * Z) : cop :=
 Definition run_program (sc : list Z) : list Z :=
   let n := Z.to_nat (zn sc 1) in
   let codes := firstn n (skipn 2 sc) in
-  let k := Z.to_nat (zn sc (2 + n)) in
+  let K := zn sc (2 + n) in
   let nops := Z.to_nat (zn sc (3 + n)) in
   let ops := map cop_of (chunk3 (firstn (3 * nops) (skipn (4 + n) sc))) in
   let po := map (map rres_of) (split_segs (skipn (4 + n + 3 * nops) sc) []) in
-  let ds := map (fun c => disc_of c k) codes in
+  let ds := map (fun c => disc_of c (k_of K)) codes in
   let fuel := S (length (concat po)) in
-  let '(p, zs) := run_cops (execp fuel ds) CF (init_stack ds (init_base_p po), init_c) ops in
+  let '(p, zs) := run_cops (execp fuel ds) CF
+                    (init_stack ds (init_base_pf po (kfail_of K ds) (appm_of K)), init_c) ops in
   let b := snd (fst p) in
   zs ++ rev (outs (snd p)) ++ canon (rev (blog b)) [] ++ [Z.of_nat (violations b)].
